@@ -169,6 +169,18 @@ CLAIMED = {
              'rule on a redirect hop with strong redirects.',
         note='Trusted: refs/scope.py as the restatement of the documented option semantics (disagreements are resolved by hand: one '
              'reference bug fixed, one genuine defect fixed). The same monitor also runs in C03\'s resumed runs.'),
+    'C20': dict(
+        level='exploration', engine='crawl', design_ref='4/C20',
+        technique='deterministic simulation of the whole application with robots enabled against 1..3 origins (incl. same host on '
+                  'another scheme/port) serving generated robots.txt files directly, via redirect, as 404, as 5xx, small and > 4 KiB, '
+                  'with concurrency 1..4 and several user agents; request log judged by an independent robots matcher',
+        text='Seeded search over robots.txt files in a dialect on which common matchers agree, site graphs with and without meta '
+             'nofollow pages, redirects, origins, concurrency and user agents. Oracle: no requested URL is disallowed for the agent; '
+             'robots.txt of an origin is completely received before any other request to it and not requested again by items '
+             'started after it was obtained; URLs reachable only through nofollow pages are never requested; 404 means allow-all; '
+             '5xx postpones (no request to that origin until it is obtained); coverage equals the reference crawl.',
+        note='Trusted: refs/robots.py for the restricted dialect, refs/site.py, refs/scope.py. Concurrent first fetches of one '
+             'robots.txt are not judged.'),
 }
 
 PENDING_REASON = 'check not built yet in this round (designed in DESIGN.md section 4); no claim is made'
